@@ -591,6 +591,15 @@ impl Inner {
         send_buffer: &SendBuffer<B>,
         frame: frame::Data,
     ) -> Result<(), Error> {
+        #[cfg(feature = "verif-hooks")]
+        let _verif = crate::verif::enter("inner.recv_data", || {
+            vec![
+                u32::from(frame.stream_id()) as i64,
+                frame.flow_controlled_len() as i64,
+                frame.payload().len() as i64,
+                frame.is_end_stream() as i64,
+            ]
+        });
         let id = frame.stream_id();
 
         let stream = match self.store.find_mut(&id) {
